@@ -28,6 +28,7 @@ type ndpDriver struct {
 	panics int
 	steps  int
 	infra  string
+	known  []string // loop positions as of the last logged line
 }
 
 func copyAddr(a packet.Addr) packet.Addr { return packet.Addr{MAC: packet.CopyMAC(a.MAC), IP: a.IP} }
@@ -101,7 +102,7 @@ func (d *ndpDriver) reset(cfg int) error {
 	if err != nil {
 		return err
 	}
-	d.s, d.h = s, h
+	d.s, d.h, d.known = s, h, nil
 	s.Parse(vh.FrameIP4UDP(vh.RouterMAC, vh.OwnMAC, d.u.Cfg.RouterIP, d.u.Cfg.HostIP, 1000, 2000, []byte("x")))
 	d.mark = d.c.nEvents()
 	return nil
@@ -141,7 +142,21 @@ func (d *ndpDriver) observe(rec map[string]interface{}) {
 	rec["frames"] = fs
 	rec["hunt"] = d.huntList()
 	rec["routers"] = d.routers()
-	rec["pcs"] = d.c.pcs()
+	d.known = d.c.pcs()
+	rec["pcs"] = d.known
+}
+
+// spontaneous logs the loops whose genuine 2.0-2.8 s timer fired since the last logged line (possible when the
+// machine stalls the driver for seconds): the timer expiry is a step of its own in the specification.
+func (d *ndpDriver) spontaneous() {
+	now := d.c.pcs()
+	for i := range d.known {
+		if i < len(now) && d.known[i] == "sleep" && now[i] == "check" {
+			d.tw.line(map[string]interface{}{"a": "timeout", "l": i + 1, "spontaneous": true, "frames": []vh.NAFrame{},
+				"hunt": d.huntList(), "routers": d.routers()})
+			d.known[i] = "check"
+		}
+	}
 }
 
 func (d *ndpDriver) addr(a action) packet.Addr {
@@ -326,6 +341,9 @@ func (d *ndpDriver) step(a action) (rec map[string]interface{}) {
 		if c.countSince(e0, "wake") > 0 {
 			d.waitSleepers()
 		}
+	case "pause": // self-test of the driver: let the genuine timers run
+		time.Sleep(time.Duration(a.i("ms")) * time.Millisecond)
+		return nil
 	case "other":
 		rec["err"] = false
 		d.deliver(d.otherFrame(a.s("kind")), rec)
@@ -391,6 +409,7 @@ func ndpMain(args []string) {
 		if skipping {
 			return
 		}
+		d.spontaneous()
 		var rec map[string]interface{}
 		if a.s("a") == "step" {
 			rec = d.advance(a.i("k"))
